@@ -63,6 +63,9 @@ pub fn on_event(site: &'static str, _a: u64, b: u64) {
     if !site.starts_with("wb_") {
         return;
     }
+    if site.ends_with("_got") {
+        assign_worker_slot();
+    }
     let mut g = GATE.m.lock().unwrap();
     match site {
         "wb_created" => g.c.created += 1,
@@ -221,9 +224,30 @@ pub fn step_disable() {
     STEP.cv.notify_all();
 }
 
+/// pipeline worker threads get fixed stripe slots (their OS thread ids vary)
+pub fn assign_worker_slot() {
+    if qbice_storage::verif::thread_slot().is_some() {
+        return;
+    }
+    let name = std::thread::current().name().unwrap_or("").to_string();
+    let slot = if name == "bg_writer_commit" {
+        Some(8)
+    } else if name == "bg_writer_after_commit" {
+        Some(9)
+    } else {
+        name.strip_prefix("bg_writer_ser_").and_then(|i| i.parse::<usize>().ok()).map(|i| 10 + i)
+    };
+    if let Some(s) = slot {
+        qbice_storage::verif::set_thread_slot(s);
+    }
+}
+
 pub fn step_event(site: &'static str, a: u64, _b: u64) {
     if !site.starts_with("wb_") {
         return;
+    }
+    if site.ends_with("_got") {
+        assign_worker_slot();
     }
     let mut g = STEP.m.lock().unwrap();
     if !g.enabled && !g.drain {
